@@ -50,7 +50,10 @@ func (ps *PatchOp) Do(ctx ActionContext) error {
 	}
 	oo.Path = path
 	if ps.Value != nil {
-		oo.Value = ps.Value.Value()
+		// use copy of value, so that same operation executed more than once does not share node between documents/paths
+		if n := ps.Value.Value(); n != nil {
+			oo.Value = n.Clone()
+		}
 	} else if ps.ValueFrom != nil {
 		// use copy of source node, otherwise document would share (or even contain) node it was read from
 		if n := ctx.Data().Lookup(ctx.TemplateEngine().RenderLenient(*ps.ValueFrom, ss)); n != nil {
